@@ -601,7 +601,7 @@ func (c *SpecCtx) quant(x *SExpr) Value {
 		}
 		var pp []string
 		for _, p := range ps {
-			for _, q := range patternTerms(p) {
+			for _, q := range patternTerms(stripBoundItes(p)) {
 				pp = append(pp, e.hoistItes(q))
 			}
 		}
